@@ -704,3 +704,21 @@ for _p in ('C04', 'C05', 'C06', 'C08', 'C09', 'C10', 'C14'):
     if 'sending methods are additionally tied by translation' not in PROPS[_p]['technique']:
         PROPS[_p]['technique'] = PROPS[_p]['technique'] + ('; the sending methods are additionally tied by translation: the bodies of the TCP client\'s methods are '
             'regenerated from the Go source on every run and proved equal to the model\'s step')
+
+# ---- GetChunk skeleton (translator/chunk.go -> Gen/Chunk.lean, Sk/Chunk.lean, Tie/Chunk.lean) and the Send* helper shapes
+_SKG_THEOREMS = ['FV.Tie.GetChunk_is_model', 'FV.Tie.gloop_keys', 'FV.Tie.chunkKey_is_kChunk']
+_SKG_TEXT = (" Regenerated tie for GetChunk: its body is re-read from fluent/protocol/chunk.go on every run (Gen/Chunk.lean; statements recognised by their "
+             "source text, anything else `.unknown`), and GetChunk_is_model (Tie/Chunk.lean) proves that running it on any byte string gives exactly the "
+             "model's getChunk (the key loop by induction on the count, gloop_keys); chunkKey_is_kChunk pins the key it compares with.")
+for _p in ('C04', 'C10', 'C11', 'C12'):
+    PROPS[_p]['translator'] = True
+    PROPS[_p]['lean_modules'] = PROPS[_p]['lean_modules'] + ['FluentVerif.Tie.Chunk']
+    PROPS[_p]['theorems'] = PROPS[_p]['theorems'] + _SKG_THEOREMS
+    PROPS[_p]['explanation'] = PROPS[_p]['explanation'] + _SKG_TEXT
+    if 'GetChunk is additionally tied by translation' not in PROPS[_p]['technique']:
+        PROPS[_p]['technique'] = PROPS[_p]['technique'] + '; GetChunk is additionally tied by translation (body regenerated from the Go source on every run, proved equal to the model)'
+PROPS['C02']['translator'] = True
+PROPS['C02']['lean_modules'] = PROPS['C02']['lean_modules'] + ['FluentVerif.Tie.Client']
+PROPS['C02']['theorems'] = PROPS['C02']['theorems'] + ['FV.Tie.helpers_match_model', 'FV.Tie.helpers_all_modelled']
+PROPS['C02']['explanation'] = PROPS['C02']['explanation'] + (" The Send* helpers' shape is regenerated too: for each helper of the model (Helper.wire) the source "
+    "as it is now is `msg[, err] := protocol.<that constructor>(<the helper's own arguments>)` followed by `Send(msg)` (helpers_match_model over Gen.Client.clientHelpers).")
